@@ -207,7 +207,7 @@ class Ctx:
         return plain_token(self.rng.choice(pool))
 
     def weight(self):
-        return self.rng.choice([None, None, 2.0, 0.5, 3.0, 0.25, 10.0, 1.0])
+        return self.rng.choice([None, None, 2.0, 0.5, 3.0, 0.25, 10.0, 1.0, 0.0, 2.0])
 
 
 def _ends_free(smi):
